@@ -7,7 +7,7 @@ META = {
     "rule": "Both modes of the real decoder on the same symbolic bytes (relational, no model): S(T,N); M/size, "
             "M/value (all leaves) and M/cut variants of command/response shapes.",
     "bounds": {
-        "quick": "structure types (seed-rotated third) lengths m-1..min(m+2,8); primitive types; shapes of 10 seed-rotated command codes",
+        "quick": "structure types (seed-rotated third + list-bearing types) lengths m-1..min(m+2,8); synthetic nested types 0..8; primitive types; shapes of 8 seed-rotated command codes + PCR_Read, GetCapability",
         "thorough": "all structure types lengths 0..min(m+4,12); all command codes",
     },
     "outside": "inputs neither within N nor an instance of an explored shape; warn-mode behaviour after the first "
